@@ -5,7 +5,7 @@ from .. import AnalysisError
 from ..cfg import flag_filter
 from ..flow import show
 from ..report import ob_ok, ob_fail
-from .common import is_call, method_call, need, guards_of, aug_like, call_arg
+from .common import is_call, method_call, need, guards_of, aug_like, call_arg, enclosing_loops, strip_wrappers
 
 
 class Phases:
@@ -342,6 +342,20 @@ def ord_hydrogens(repo, tier="quick"):
         if isinstance(tgt, ast.Subscript) and isinstance(tgt.slice, ast.Constant) and tgt.slice.value == "hcount":
             n_adj += 1
             flags = [ast.unparse(t) for t, pol, _ in guards_of(fi, n.id) if pol]
+            # a true conjunction implies each conjunct
+            flags += [ast.unparse(v) for t, pol, _ in guards_of(fi, n.id) if pol and isinstance(t, ast.BoolOp) and isinstance(t.op, ast.And) for v in t.values]
+            # a loop over `<table> if flag else {}` runs under the flag as well
+            for lp in enclosing_loops(fi, n.id):
+                if lp.kind != "for":
+                    continue
+                it = strip_wrappers(fi.flow.canon(lp.ast.iter, lp.id))
+                m = method_call(it, "items") or method_call(it, "keys") or method_call(it, "values")
+                if m and not m[2]:
+                    it = m[0]
+                if it[0] == "var":
+                    it = fi.flow.diamond(it, lp.id) or it
+                if it[0] == "ifexp" and it[1][0] == "param" and it[3] in (("dict", ()), ("list", ()), ("tuple", ()), ("set", ())):
+                    flags.append(it[1][1])
             if "keep_bonding" in flags:
                 obs.append(ob_ok("ORD.hydrogens", fi, st, construct="hcount adjustment", instance="adjust:guarded",
                                  reason="runs only under keep_bonding, which neither resolver nor sampler sets"))
